@@ -133,7 +133,17 @@ func sec1String(r *gen.Rng, pool []namedPt) ([]byte, string) {
 		b[0] = byte(r.Intn(256))
 		return b, "valid-body-any-prefix"
 	case 5:
-		// x + p alias (only fits for x < 2^256 - p)
+		// x + p alias (only fits for x < 2^256 - p): an abscissa drawn from the whole gap, structured
+		// after the limbs of p, then the few fixed special points
+		if r.Chance(2, 3) {
+			sp := gapPointX(r)
+			b := append([]byte{}, oracle.EncodeUncompressed(sp)...)
+			if r.Bool() {
+				b = append([]byte{}, oracle.EncodeCompressed(sp)...)
+			}
+			put(b[1:33], new(big.Int).Add(sp.X, bigP))
+			return b, "x+p-alias"
+		}
 		for _, sp := range specialPoints() {
 			if sp.P.X.Cmp(new(big.Int).Sub(oracle.Two256, bigP)) < 0 && r.Chance(1, 2) {
 				b := append([]byte{}, oracle.EncodeUncompressed(sp.P)...)
@@ -148,6 +158,13 @@ func sec1String(r *gen.Rng, pool []namedPt) ([]byte, string) {
 		put(b[1:33], new(big.Int).Add(bigP, big.NewInt(int64(r.Intn(1000)))))
 		return b, "x>=p"
 	case 6:
+		if r.Chance(2, 3) {
+			if sp := gapPointY(r); sp != nil {
+				b := append([]byte{}, oracle.EncodeUncompressed(sp)...)
+				put(b[33:65], new(big.Int).Add(sp.Y, bigP))
+				return b, "y+p-alias"
+			}
+		}
 		for _, sp := range specialPoints() {
 			if sp.P.Y.Cmp(new(big.Int).Sub(oracle.Two256, bigP)) < 0 {
 				b := append([]byte{}, oracle.EncodeUncompressed(sp.P)...)
